@@ -180,6 +180,28 @@ def _divisor_text(c, n):
 
 
 def _discharged(c, sim, g, par, fnode, n, D):
+    why = _discharged1(c, sim, g, par, fnode, n, D)
+    if why:
+        return why
+    # copy propagation: a local that is assigned exactly once, from a plain expression (`int_t d = a.i;`), is zero exactly when
+    # that expression is - the tests made on the expression before the copy discharge the division by the copy
+    core = re.fullmatch(r"(?:abs\()?(\w+)\)?", D)
+    if core and fnode.get("b") is not None:
+        v = core.group(1)
+        txt = cx.strip_pp(c.text(fnode["b"], fnode["e"]))
+        writes = re.findall(r"(?<![\w.>])%s\s*(?:=(?!=)|\+=|-=|\*=|/=|%%=|\+\+|--)" % re.escape(v), txt) + re.findall(r"(?:\+\+|--)\s*%s\b" % re.escape(v), txt)
+        m1 = re.search(r"(?<![\w.>])%s\s*=(?!=)\s*([^,;]+)[,;]" % re.escape(v), txt)
+        if len(writes) == 1 and m1:
+            src = " ".join(m1.group(1).split())
+            if re.fullmatch(r"[\w.>\-\[\]()*]+", src) and not re.search(r"\w\s*\(", src.replace("(int_t)", "").replace("(int)", "")):
+                src0 = re.sub(r"^\((?:int_t|int|long)\)\s*", "", src)
+                why = _discharged1(c, sim, g, par, fnode, n, src0)
+                if why:
+                    return "`%s` is a copy of `%s`: %s" % (v, src0, why)
+    return None
+
+
+def _discharged1(c, sim, g, par, fnode, n, D):
     core = D
     m = re.fullmatch(r"abs\((\w+)\)", D)
     if m:
